@@ -5,6 +5,7 @@ package gosym
 // the code under test are interpreted.
 
 import (
+	"sync"
 	"bytes"
 	"encoding/base64"
 	"encoding/json"
@@ -291,7 +292,18 @@ type jfield struct {
 	tagged    bool
 }
 
+var jsonFieldCache sync.Map
+
 func jsonFields(t *types.Struct) []jfield {
+	if v, ok := jsonFieldCache.Load(t); ok {
+		return v.([]jfield)
+	}
+	f := jsonFieldsUncached(t)
+	jsonFieldCache.Store(t, f)
+	return f
+}
+
+func jsonFieldsUncached(t *types.Struct) []jfield {
 	type cand struct {
 		f     jfield
 		depth int
@@ -410,11 +422,44 @@ func jsonFields(t *types.Struct) []jfield {
 	return out
 }
 
-func (p *Program) hasMethod(t types.Type, name string) *types.Selection {
+type methKey struct {
+	t    types.Type
+	ptr  bool
+	name string
+}
+
+type methVal struct {
+	sel *types.Selection
+	fn  *ssa.Function
+}
+
+// methodOf returns (cached) the method set entry and implementation of an exported method of t.
+func (p *Program) methodOf(t types.Type, name string) methVal {
 	if _, ok := t.(*fakeType); ok {
-		return nil
+		return methVal{}
 	}
-	return p.prog.MethodSets.MethodSet(t).Lookup(nil, name)
+	key := methKey{t: t, name: name}
+	if pt, ok := t.(*types.Pointer); ok {
+		key = methKey{t: pt.Elem(), ptr: true, name: name}
+	}
+	if v, ok := p.methCache.Load(key); ok {
+		return v.(methVal)
+	}
+	var mv methVal
+	mv.sel = p.prog.MethodSets.MethodSet(t).Lookup(nil, name)
+	if mv.sel != nil {
+		mv.fn = p.prog.LookupMethod(t, nil, name)
+	}
+	p.methCache.Store(key, mv)
+	return mv
+}
+
+func (p *Program) hasMethod(t types.Type, name string) *types.Selection {
+	return p.methodOf(t, name).sel
+}
+
+func (p *Program) lookupExported(t types.Type, name string) *ssa.Function {
+	return p.methodOf(t, name).fn
 }
 
 // ---------------------------------------------------------------------
@@ -655,7 +700,7 @@ func (ex *exec) isEmptyValue(t types.Type, v value) bool {
 }
 
 func (ex *exec) callMarshaler(fr *frame, recvT types.Type, recv value) *jnode {
-	fn := ex.prog.LookupMethod(recvT, nil, "MarshalJSON")
+	fn := ex.lookupExported(recvT, "MarshalJSON")
 	if fn == nil {
 		panic(unsupported("MarshalJSON method of %s not found", recvT))
 	}
@@ -1052,7 +1097,7 @@ func (d *decodeState) fieldAddr(st *types.Struct, addr *value, index []int) *val
 
 func (d *decodeState) callUnmarshaler(pt types.Type, addr *value, n *jnode) {
 	ex := d.ex
-	fn := ex.prog.LookupMethod(pt, nil, "UnmarshalJSON")
+	fn := ex.lookupExported(pt, "UnmarshalJSON")
 	if fn == nil {
 		panic(unsupported("UnmarshalJSON method of %s not found", pt))
 	}
